@@ -70,10 +70,11 @@ namespace nmtools::index
         auto is_broadcast_rhs = (rhs_cols == 1);
         if (is_scalar_rhs) {
             auto n_packed = rhs_cols / N_ELEM_PACK;
-            auto scalar_rhs_idx = (rhs_cols == 1 ? simd_row : ((n_packed * N_ELEM_PACK) + (simd_col - n_packed) + (simd_row * out_cols * static_cast<int>(rhs_rows > 1))));
+            auto scalar_rhs_idx = (rhs_cols == 1 ? (simd_row * static_cast<int>(rhs_rows > 1)) : ((n_packed * N_ELEM_PACK) + (simd_col - n_packed) + (simd_row * out_cols * static_cast<int>(rhs_rows > 1))));
             at(result,2) = tagged_index_t{SIMD::SCALAR,scalar_rhs_idx};
         } else if (is_broadcast_rhs) {
-            at(result,2) = tagged_index_t{SIMD::BROADCAST,simd_row};
+            // NOTE: a single-row (1,1) operand has only element 0
+            at(result,2) = tagged_index_t{SIMD::BROADCAST,simd_row * static_cast<int>(rhs_rows > 1)};
         } else {
             auto packed_rhs_idx = simd_col * N_ELEM_PACK + (simd_row * out_cols * static_cast<int>(rhs_rows > 1));
             at(result,2) = tagged_index_t{SIMD::PACKED,packed_rhs_idx};
@@ -83,10 +84,11 @@ namespace nmtools::index
         auto is_broadcast_lhs = (lhs_cols == 1);
         if (is_scalar_lhs) {
             auto n_packed = lhs_cols / N_ELEM_PACK;
-            auto scalar_lhs_idx = (lhs_cols == 1 ? simd_row : ((n_packed * N_ELEM_PACK) + (simd_col - n_packed) + (simd_row * out_cols * static_cast<int>(lhs_rows > 1))));
+            auto scalar_lhs_idx = (lhs_cols == 1 ? (simd_row * static_cast<int>(lhs_rows > 1)) : ((n_packed * N_ELEM_PACK) + (simd_col - n_packed) + (simd_row * out_cols * static_cast<int>(lhs_rows > 1))));
             at(result,1) = tagged_index_t(SIMD::SCALAR,scalar_lhs_idx);
         } else if (is_broadcast_lhs) {
-            at(result,1) = tagged_index_t{SIMD::BROADCAST,simd_row};
+            // NOTE: a single-row (1,1) operand has only element 0
+            at(result,1) = tagged_index_t{SIMD::BROADCAST,simd_row * static_cast<int>(lhs_rows > 1)};
         } else {
             auto packed_lhs_idx = simd_col * N_ELEM_PACK + (simd_row * out_cols * static_cast<int>(lhs_rows > 1));
             at(result,1) = tagged_index_t{SIMD::PACKED,packed_lhs_idx};
